@@ -23,6 +23,10 @@ Record case := {
   c_batch : N;               (* needle_map batch constant of the harness build *)
   c_ops : list op;
   c_probe : list N;          (* keys looked up at the end of every run *)
+  (* oracle: the answers of the real willf/bloom filter (NewWithEstimates(entries, 0.001)) for the
+     reverse walk of the NeedleMap's .idx resp. the LevelDB map's .idx, one per entry *)
+  c_bloom_mem : list bool;
+  c_bloom_ldb : list bool;
   (* bare CompactMap *)
   i_cm : list res;
   i_secs : list isec;
@@ -115,9 +119,9 @@ Definition corr (c : case) : bool :=
   metric_eqb (l_met ls) (i_ldb_met c) &&
   idx_eqb osz (l_idx ls) (i_ldb_idx c) &&
   list_eqb onval_eqb (map (ldb_get ls) (c_probe c)) (i_ldb_look c) &&
-  metric_eqb (l_met ll) (i_ldb_met2 c) &&
+  metric_eqb (metric_from_index_o osz (l_idx ls) (c_bloom_ldb c)) (i_ldb_met2 c) &&
   list_eqb onval_eqb (map (ldb_get ll) (c_probe c)) (i_ldb_look2 c) &&
-  metric_eqb (metric_from_index osz (nm_idx ms)) (i_sf_met c) &&
+  metric_eqb (metric_from_index_o osz (nm_idx ms) (c_bloom_mem c)) (i_sf_met c) &&
   list_eqb onval_eqb (map (sf_get osz sdx) (c_probe c)) (i_sf_look c).
 
 (* ---------- the property oracle on the implementation's observables ---------- *)
@@ -159,6 +163,9 @@ Definition trig (c : case) : option N :=
   if trig_redelete (c_batch c) ops then Some 0
   else if disciplined ops && trig_empty_put ops then Some 1
   else if disciplined ops && trig_rewrite ops then Some 2
+  else if disciplined ops &&
+          (trig_bloom_fp (c_osz c) (nm_idx (snd (nm_run (c_osz c) (c_batch c) nm0 ops))) (c_bloom_mem c) ||
+           trig_bloom_fp (c_osz c) (l_idx (snd (ldb_run (c_osz c) ldb0 ops))) (c_bloom_ldb c)) then Some 3
   else None.
 
 Definition nontrivial (c : case) : bool :=
